@@ -14,11 +14,13 @@ import random
 from typing import List, Optional
 
 from vk.prelude import h, tick, tiered, concrete_arrays, notrace, sym_true
-from whoosh import fields, query
+from whoosh import fields, query, analysis
+from whoosh.query import spans
 from whoosh.filedb.filestore import RamStorage
 
 concrete_arrays()
 
+PTEXTS = [u"a b", u"b a", u"a x b", u"b x a", u"a", u"b x x a", u"x a b", u""]
 NUMS = [None, 5, 10, 15]
 UVALS = [None, u"a", u"b", u"c"]
 _IX = {}
@@ -28,8 +30,10 @@ def ix():
     if not _IX:
         random.seed(3)
         # f: multi-valued (several terms per document); u: single-valued; n: single-valued number
+        # p: positional text whose word order varies from document to document (phrases, spans)
         schema = fields.Schema(k=fields.ID(stored=True), f=fields.KEYWORD(scorable=True), u=fields.ID(),
-                               n=fields.NUMERIC(int, bits=8, signed=False, shift_step=4))
+                               n=fields.NUMERIC(int, bits=8, signed=False, shift_step=4),
+                               p=fields.TEXT(analyzer=analysis.SimpleAnalyzer(), phrase=True))
         st = RamStorage()
         i = st.create_index(schema)
         w = i.writer()
@@ -43,6 +47,7 @@ def ix():
                         kw["n"] = nv
                     if uv is not None:
                         kw["u"] = uv
+                    kw["p"] = PTEXTS[num % len(PTEXTS)]
                     w.add_document(**kw)
                     num += 1
         w.commit()
@@ -76,11 +81,18 @@ def leaf(code):
         lambda: query.Prefix("f", u"a"), lambda: query.ConstantScoreQuery(T("f", u"b"), 2.0),
         lambda: query.And([]), lambda: query.Or([]), lambda: query.Not(T("f", u"c")),
         lambda: query.Wildcard("f", u"?"), lambda: T("f", u"zz"),
+        # positional leaves: attributes (slop, ordered, mindist, limit) must survive every rewrite
+        lambda: query.Phrase("p", [u"a", u"b"], slop=2),
+        lambda: spans.SpanNear(T("p", u"a"), T("p", u"b"), slop=1, ordered=False),
+        lambda: spans.SpanNear(T("p", u"a"), T("p", u"b"), slop=2, ordered=True),
+        lambda: spans.SpanFirst(T("p", u"a"), limit=1),
+        lambda: spans.SpanNot(T("p", u"a"), T("p", u"x")),
+        lambda: spans.SpanOr([T("p", u"x"), spans.SpanNear(T("p", u"b"), T("p", u"a"), slop=1)]),
     ]
     return table[code]()
 
 
-NLEAF = 24
+NLEAF = 30
 COMPOUND = [
     ("And", lambda subs: query.And(subs)), ("Or", lambda subs: query.Or(subs)), ("DisMax", lambda subs: query.DisjunctionMax(subs)),
     ("And^2", lambda subs: query.And(subs, boost=2.0)), ("Or^.5", lambda subs: query.Or(subs, boost=0.5)),
